@@ -92,3 +92,10 @@ package decoder
 //@   ensures [C07.compressed_batch_rejected] len(batch) >= 61 && int16(be16(batch, 21)) & 7 != 0 ==> err != nil
 //@   ensures [C07.decodes_record_count_records] err == nil && len(batch) >= 61 && int32(be32(batch, 57)) > 0 ==> len(result0) == int(int32(be32(batch, 57)))
 //@   loop 1 invariant [C07.one_record_per_iteration] len(records) == int(i)
+
+// ---- index parsing: "IDX\0" | version uint16 @4 | count int32 @6 | interval int32 @10 | reserved @14 | entries (offset int64, position int32) from @16 ----
+//@ func parseIndex
+//@   only_for C07
+//@   ensures [C07.parse_index_entries] err == nil ==> len(data) >= 16 && len(result0) == int(int32(be32(data, 6))) && (forall k int :: 0 <= k && k < len(result0) ==> result0[k].Offset == int64(be64(data, 16 + 12*k)) && result0[k].Position == int32(be32(data, 16 + 12*k + 8)))
+//@   ensures [C07.index_version_checked] err == nil ==> be16(data, 4) == 1
+//@   loop 1 invariant [C07.index_inv] count == int32(be32(data, 6)) && version == 1 && be16(data, 4) == 1 && brPos(reader) == 12 + 12*int(i) && (forall k int :: 0 <= k && k < int(i) ==> entries[k].Offset == int64(be64(data, 16 + 12*k)) && entries[k].Position == int32(be32(data, 16 + 12*k + 8)))
